@@ -93,6 +93,270 @@ def write_file(ctx, name, lines, gz=False):
     return path
 
 
+ASK = object()
+ALT = {"leading semicolon": [False, True], "trailing semicolon": [False, True],
+       "quoted GFF2 values": [False, True], "field separator": [";", "; ", " ; "],
+       "keyval separator": ["=", " "], "multival separator": [",", "|"], "fmt": ["gff3", "gtf"],
+       "repeated keys": [False, True]}
+SUPPLIED = pyside.mk_dialect(ts=True, q=False, fs="; ", kv="=", fmt="gff3", rk=False, order=["zz"])
+
+
+def line_case(s):
+    """(a): the line specification; "input" is its attribute list (shrinkable), the rest of the spec goes along"""
+    d = s.as_dict()
+    return {"scenario": "infer_line", "input": [[k, list(v)] for k, v in d.pop("attrs")], "spec": d}
+
+
+def check_infer_line(ctx, case, res, row=ASK):
+    """(a) per-line recovery: the specification is rendered (by the model's renderer, which also says whether it is
+    well-formed; pc.py_wf_render when the model is unavailable) and infer_dialect on the attribute column has to state
+    the dialect the line was written in.  returns the attribute column, or None when the spec is outside the domain"""
+    from gffutils import helpers
+    s = gen_spec.Spec.from_dict(dict(case["spec"], attrs=case["input"]))
+    if row is ASK:
+        rows = pc.run_specs(ctx, [s])
+        row = rows[0] if rows else None
+    wf = row["wf"] if row else True
+    if not wf or nparts(s) < 2:
+        return None
+    line = row["line"] if row else pc.py_wf_render(s)
+    attr = line.split("\t")[8]
+    res.evaluations += 1
+    want = spec_dialect(s)
+    try:
+        got = helpers.infer_dialect(attr)
+    except Exception as ex:
+        got = "raised %r" % ex
+    if got != want:
+        common.fail(res, dict(case, attributes=attr), "infer_dialect_wrong",
+                    "infer_dialect does not state the dialect the line was written in",
+                    attributes=attr, expected=want, observed=got)
+    return attr
+
+
+def vote_features(case):
+    """(b): the Feature objects of a vote case, the (value, weight) observations and the first-seen key order"""
+    from gffutils.feature import Feature
+    key = case["key"]
+    base = pyside.mk_dialect(order=[])
+    feats, obs, keyorder = [], [], []
+    for rec in case["input"]:
+        d = copy.deepcopy(base)
+        d[key] = rec["value"]
+        d["order"] = list(rec["order"])
+        feats.append(Feature(seqid="c", start=1, end=2, attributes={k: ["1"] for k in rec["keys"]}, dialect=d))
+        obs.append((rec["value"], len(rec["keys"])))
+        for k in rec["keys"]:
+            if k not in keyorder:
+                keyorder.append(k)
+    return feats, obs, keyorder
+
+
+def check_vote(case, res):
+    """(b) _choose_dialect against the weighted majority with first-seen ties.  returns (features, observations, chosen)"""
+    from gffutils import helpers
+    key = case["key"]
+    feats, obs, keyorder = vote_features(case)
+    try:
+        got = helpers._choose_dialect(feats)
+    except Exception as ex:
+        got = {"error": repr(ex)}
+    want_v = weighted_choice_oracle(obs)
+    if got.get(key) != want_v or got.get("order") != keyorder:
+        common.fail(res, case, "choose_dialect_wrong",
+                    "_choose_dialect is not the weighted majority with first-seen ties / "
+                    "first-seen key order",
+                    **{"observations(value,weight)": obs, "observed": got.get(key), "expected": want_v,
+                       "observed_order": got.get("order"), "expected_order": keyorder})
+    return feats, obs, got
+
+
+def file_case(scenario, lines, specs, name, **kw):
+    return dict({"scenario": scenario, "input": list(lines), "records": [s.as_dict() for s in specs],
+                 "parallel": ["records"], "file_name": name}, **kw)
+
+
+def specs_of(case):
+    return [gen_spec.Spec.from_dict(d) for d in case["records"]]
+
+
+def check_file_dialect(path, case, specs, res):
+    """(c) DataIterator(path, checklines).dialect is the dialect the file was written in, with the key order of the
+    window"""
+    from gffutils import iterators
+    cl = case["checklines"]
+    want = spec_dialect(specs[0])
+    window = specs[: cl + 1]
+    order = []
+    for s in window:
+        for k, v in s.attrs:
+            if k not in order:
+                order.append(k)
+    want_d = dict(want, order=order)
+    try:
+        it = iterators.DataIterator(path, checklines=cl)
+        got = it.dialect
+    except Exception as ex:
+        got = "raised %r" % ex
+    if got != want_d:
+        common.fail(res, case, "file_dialect_wrong",
+                    "DataIterator.dialect does not state the dialect the file was written in",
+                    expected=want_d, observed=got)
+    return got
+
+
+def check_supplied(path, case, res):
+    from gffutils import iterators
+    sup = SUPPLIED
+    it = iterators.DataIterator(path, dialect=copy.deepcopy(sup))
+    fs = list(it)
+    if it.dialect != sup or any(f.dialect != sup for f in fs):
+        common.fail(res, case, "supplied_dialect_not_verbatim",
+                    "a supplied dialect is not used verbatim", supplied=sup, observed=it.dialect)
+
+
+def check_database(ctx, path, case, specs, res):
+    """(c) database: dialect persisted, reopen, GFF3/GTF routing"""
+    import gffutils
+    from gffutils import iterators
+    fmt = spec_dialect(specs[0])["fmt"]
+    dbp = os.path.join(ctx.scratch, case["file_name"] + ".db")
+    try:
+        db = gffutils.create_db(path, dbp, force=True, merge_strategy="create_unique")
+        d1 = db.dialect
+        d2 = gffutils.FeatureDB(dbp).dialect
+        it = iterators.DataIterator(path)
+        if d1 != it.dialect or d2 != it.dialect:
+            common.fail(res, case, "db_dialect_differs",
+                        "FeatureDB.dialect differs from the inferred dialect (or changes on "
+                        "reopen)", db=d1, reopened=d2, iterator=it.dialect)
+        derived = [f for f in db.all_features() if f.source == "gffutils_derived"]
+        rels = set(dbside.rels_of(db))
+        if fmt == "gtf":
+            # GTF semantics: every line is a level-1 child of its transcript_id and a level-2 child of its
+            # gene_id (derived genes/transcripts additionally exist only when the file has exon lines)
+            ok = True
+            for s_, f in zip(specs, [x for x in db.all_features() if x.source != "gffutils_derived"]):
+                a = dict(s_.attrs)
+                t, g = a["transcript_id"][0], a["gene_id"][0]
+                if (t, str(f.id), 1) not in rels or (g, str(f.id), 2) not in rels:
+                    ok = False
+            if not ok:
+                common.fail(res, case, "gtf_semantics_missing",
+                            "GTF-format input was not imported with GTF semantics (transcript_id / "
+                            "gene_id relations missing)", relations=sorted(rels))
+        else:
+            parent_links = set()
+            for s_, f in zip(specs, list(db.all_features())):
+                for p_ in dict(s_.attrs).get("Parent", []):
+                    parent_links.add((p_, str(f.id), 1))
+            if derived or {x for x in rels if x[2] == 1} != parent_links:
+                common.fail(res, case, "gff3_semantics_wrong",
+                            "GFF3-format input was imported with GTF semantics (derived features, "
+                            "or relations not from Parent)", relations=sorted(rels), derived=[str(f.id) for f in derived])
+        res.count("db_fmt_" + fmt)
+    except Exception as ex:
+        common.fail(res, case, "create_db_raised",
+                    "create_db raised %r on a consistent file" % ex, error=dbside.err_name(ex), observed=repr(ex))
+    res.evaluations += 1
+
+
+def check_mixture(path, case, res):
+    """mixtures inside the window of a real file: the trailing-semicolon choice is the weighted majority of the
+    (trailing, weight) votes of the lines in the window"""
+    from gffutils import iterators
+    cl = case["checklines"]
+    it = iterators.DataIterator(path, checklines=cl)
+    want_t = weighted_choice_oracle([tuple(v) for v in case["votes"]][: cl + 1])
+    if it.dialect["trailing semicolon"] != want_t:
+        common.fail(res, case, "mixed_window_trailing",
+                    "mixed window: trailing-semicolon choice is not the weighted majority",
+                    observed=it.dialect["trailing semicolon"], expected=want_t)
+    return it
+
+
+def check_update_gtf_db(ctx, case, res):
+    """a GTF-format database updated with GFF3-syntax lines applies GTF semantics.  returns (db | None, create reply,
+    True when the update went through)"""
+    import warnings
+    gtf_db, new_gff_syntax = case["base"], case["input"]
+    p1 = write_file(ctx, "u1.gtf", gtf_db)
+    p2 = write_file(ctx, "u2.gff3", new_gff_syntax)
+    db, rep = dbside.py_create(p1, dbside.Cfg())
+    res.evaluations += 1
+    if db is None:
+        return None, rep, False
+    try:
+        with warnings.catch_warnings():
+            warnings.simplefilter("ignore")
+            db.update(p2, make_backup=False, merge_strategy="create_unique")
+    except Exception as ex:
+        common.fail(res, case, "update_raised", "update of a GTF database with GFF3-syntax lines raised %r" % ex,
+                    error=dbside.err_name(ex), observed=repr(ex))
+        return db, rep, False
+    rels = set(dbside.rels_of(db))
+    bad = [l for l in new_gff_syntax if not any(c.startswith("exon_") and p == l.split("transcript_id=")[1].split(";")[0]
+                                                and lv == 1 for p, c, lv in rels)]
+    if any(p == "P" for p, c, lv in rels) or bad:
+        common.fail(res, case, "gtf_db_update_not_gtf_semantics",
+                    "update() of a GTF-format database did not apply GTF semantics to the new lines "
+                    "(relations must come from transcript_id/gene_id, not from Parent)", relations=sorted(rels),
+                    lines_without_transcript_link=bad)
+    return db, rep, True
+
+
+def check_update_gff_db(ctx, case, res):
+    """the reverse: a GFF3 database updated with GTF-syntax lines keeps GFF3 semantics"""
+    import warnings
+    gff_db, new_gtf_syntax = case["base"], case["input"]
+    p3 = write_file(ctx, "u3.gff3", gff_db)
+    p4 = write_file(ctx, "u4.gtf", new_gtf_syntax)
+    db, rep = dbside.py_create(p3, dbside.Cfg())
+    if db is None:
+        return None, rep
+    with warnings.catch_warnings():
+        warnings.simplefilter("ignore")
+        db.update(p4, make_backup=False, merge_strategy="create_unique")
+    if dbside.rels_of(db) or any(f.source == "gffutils_derived" for f in db.all_features()):
+        common.fail(res, case, "gff3_db_update_gtf_semantics",
+                    "update() of a GFF3-format database applied GTF semantics to GTF-looking lines",
+                    relations=sorted(dbside.rels_of(db)))
+    return db, rep
+
+
+def judge(ctx, case):
+    import gffutils
+    from gffutils import helpers
+    res = common.Result("C09")
+    sc = case["scenario"]
+    if sc == "infer_line":
+        check_infer_line(ctx, case, res)
+    elif sc == "vote":
+        check_vote(case, res)
+    elif sc == "vote_empty":
+        if helpers._choose_dialect([]) != gffutils.constants.dialect:
+            common.fail(res, case, "choose_dialect_empty", "_choose_dialect([]) is not constants.dialect")
+    elif sc in ("file_dialect", "supplied_dialect", "database"):
+        if len(case["input"]) != len(case["records"]):
+            return res
+        specs = specs_of(case)
+        path = write_file(ctx, "j_" + case["file_name"], ["##gff-version 3"] + list(case["input"]))
+        if sc == "file_dialect":
+            check_file_dialect(path, case, specs, res)
+        elif sc == "supplied_dialect":
+            check_supplied(path, case, res)
+        else:
+            check_database(ctx, path, dict(case, file_name="j_" + case["file_name"]), specs, res)
+    elif sc == "mixture":
+        if len(case["input"]) == len(case["votes"]):
+            check_mixture(write_file(ctx, "j_" + case["file_name"], case["input"]), case, res)
+    elif sc == "update_gtf_db":
+        check_update_gtf_db(ctx, case, res)
+    elif sc == "update_gff3_db":
+        check_update_gff_db(ctx, case, res)
+    return res
+
+
 def run(ctx):
     import gffutils
     from gffutils import helpers, iterators
@@ -113,29 +377,15 @@ def run(ctx):
     rows = pc.run_specs(ctx, specs)
     for i, s in enumerate(specs):
         row = rows[i] if rows else None
-        wf = row["wf"] if row else True
-        if not wf or nparts(s) < 2:
+        attr = check_infer_line(ctx, line_case(s), res, row=row)
+        if attr is None:
             continue
-        line = row["line"] if row else pc.py_wf_render(s)
-        attr = line.split("\t")[8]
-        res.evaluations += 1
-        want = spec_dialect(s)
-        try:
-            got = helpers.infer_dialect(attr)
-        except Exception as ex:
-            got = "raised %r" % ex
-        if got != want:
-            res.oracle_failures.append(("infer_dialect does not state the dialect the line was written in",
-                                        {"attributes": attr, "written_in": want, "inferred": got}))
         res.nontriv(("line", attr))
         if row:
             cmds.append(pyside.cmd_split(attr)); exp.append(pyside.impl_split(attr)); tags.append(("infer_dialect", attr))
 
     # (b) weighted vote -------------------------------------------------------------------------------
-    alt = {"leading semicolon": [False, True], "trailing semicolon": [False, True],
-           "quoted GFF2 values": [False, True], "field separator": [";", "; ", " ; "],
-           "keyval separator": ["=", " "], "multival separator": [",", "|"], "fmt": ["gff3", "gtf"],
-           "repeated keys": [False, True]}
+    alt = ALT
     nv = 1500 if not ctx.thorough else 20000
     for i in range(nv):
         key = r.choice(DKEYS)
@@ -143,40 +393,21 @@ def run(ctx):
         if r.random() < 0.5:
             vals.reverse()
         nfeat = r.randrange(1, 7)
-        feats, obs, keyorder = [], [], []
-        base = pyside.mk_dialect(order=[])
+        recs = []
         for j in range(nfeat):
-            d = copy.deepcopy(base)
             v = r.choice(vals)
-            d[key] = v
             w = r.randrange(0, 6)
             keys = r.sample(["a", "b", "c", "d", "e", "f"], w)
-            d["order"] = list(keys)
+            order = list(keys)
             if r.random() < 0.5:
                 # the per-line key order may list a repeated key several times, or be the default order of an
                 # attribute-less line: the weight is the number of attributes, not the length of this list
-                d["order"] = r.choice([list(keys) + list(keys[:1]) * r.randrange(1, 4), ["ID", "Name", "gene_id", "transcript_id"],
-                                       []])
-            f = Feature(seqid="c", start=1, end=2, attributes={k: ["1"] for k in keys}, dialect=d)
-            feats.append(f)
-            obs.append((v, w))
-            for k in keys:
-                if k not in keyorder:
-                    keyorder.append(k)
+                order = r.choice([list(keys) + list(keys[:1]) * r.randrange(1, 4), ["ID", "Name", "gene_id", "transcript_id"],
+                                  []])
+            recs.append({"value": v, "keys": keys, "order": order})
         res.evaluations += 1
         res.count("vote_" + key.replace(" ", "_"))
-        try:
-            got = helpers._choose_dialect(feats)
-        except Exception as ex:
-            got = {"error": repr(ex)}
-        want_v = weighted_choice_oracle(obs)
-        if got.get(key) != want_v or got.get("order") != keyorder:
-            pass
-        if got.get(key) != want_v or got.get("order") != keyorder:
-            res.oracle_failures.append(("_choose_dialect is not the weighted majority with first-seen ties / "
-                                        "first-seen key order",
-                                        {"key": key, "observations(value,weight)": obs, "chosen": got.get(key),
-                                         "expected": want_v, "order": got.get("order"), "expected_order": keyorder}))
+        feats, obs, got = check_vote({"scenario": "vote", "key": key, "input": recs}, res)
         res.nontriv(("vote", key, tuple(obs)))
         cmds.append("choose " + " ".join(pyside.enc_dialect(f.dialect) + " " + pyside.enc_list(f.attributes.keys())
                                          for f in feats))
@@ -185,7 +416,7 @@ def run(ctx):
         if len(res.samples) < 2:
             res.sample({"vote_key": key, "observations": obs, "chosen": got.get(key)})
     if helpers._choose_dialect([]) != gffutils.constants.dialect:
-        res.oracle_failures.append(("_choose_dialect([]) is not constants.dialect", {}))
+        common.fail(res, {"scenario": "vote_empty"}, "choose_dialect_empty", "_choose_dialect([]) is not constants.dialect")
 
     # (c) files ---------------------------------------------------------------------------------------
     nfiles = 60 if not ctx.thorough else 600
@@ -199,75 +430,22 @@ def run(ctx):
         lines = [(rows[j]["line"] if rows else pc.py_wf_render(s)) for j, s in enumerate(specs)]
         want = spec_dialect(specs[0])
         fmt = want["fmt"]
-        path = write_file(ctx, "f%d.%s" % (i, "gtf" if fmt == "gtf" else "gff3"), ["##gff-version 3"] + lines)
+        name = "f%d.%s" % (i, "gtf" if fmt == "gtf" else "gff3")
+        path = write_file(ctx, name, ["##gff-version 3"] + lines)
         for cl in sorted(set([0, 1, nlines - 1, nlines, nlines + 2, 10])):
             if cl < 0:
                 continue
             res.evaluations += 1
-            window = specs[: cl + 1]
-            order = []
-            for s in window:
-                for k, v in s.attrs:
-                    if k not in order:
-                        order.append(k)
-            want_d = dict(want, order=order)
-            try:
-                it = iterators.DataIterator(path, checklines=cl)
-                got = it.dialect
-            except Exception as ex:
-                got = "raised %r" % ex
-            if got != want_d:
-                res.oracle_failures.append(("DataIterator.dialect does not state the dialect the file was written in",
-                                            {"lines": lines, "checklines": cl, "written_in": want_d, "reported": got}))
+            got = check_file_dialect(path, file_case("file_dialect", lines, specs, name, checklines=cl), specs, res)
             res.nontriv(("file", i, cl))
             cmds.append("file %d none none %s" % (cl, pyside.enc_list(["##gff-version 3"] + lines)))
             exp.append(("ok " + pyside.enc_dialect(got)) if isinstance(got, dict) else "err")
             tags.append(("DataIterator.dialect", repr((lines, cl))))
         # supplied dialect is used verbatim
-        sup = pyside.mk_dialect(ts=True, q=False, fs="; ", kv="=", fmt="gff3", rk=False, order=["zz"])
-        it = iterators.DataIterator(path, dialect=copy.deepcopy(sup))
-        fs = list(it)
-        if it.dialect != sup or any(f.dialect != sup for f in fs):
-            res.oracle_failures.append(("a supplied dialect is not used verbatim", {"lines": lines, "supplied": sup,
-                                                                                   "reported": it.dialect}))
+        check_supplied(path, file_case("supplied_dialect", lines, specs, name), res)
         # database: dialect persisted, reopen, routing
         if i % 3 == 0:
-            dbp = os.path.join(ctx.scratch, "d%d.db" % i)
-            try:
-                db = gffutils.create_db(path, dbp, force=True, merge_strategy="create_unique")
-                d1 = db.dialect
-                d2 = gffutils.FeatureDB(dbp).dialect
-                it = iterators.DataIterator(path)
-                if d1 != it.dialect or d2 != it.dialect:
-                    res.oracle_failures.append(("FeatureDB.dialect differs from the inferred dialect (or changes on "
-                                                "reopen)", {"lines": lines, "db": d1, "reopened": d2,
-                                                            "iterator": it.dialect}))
-                derived = [f for f in db.all_features() if f.source == "gffutils_derived"]
-                rels = set(dbside.rels_of(db))
-                if fmt == "gtf":
-                    # GTF semantics: every line is a level-1 child of its transcript_id and a level-2 child of its
-                    # gene_id (derived genes/transcripts additionally exist only when the file has exon lines)
-                    ok = True
-                    for s_, f in zip(specs, [x for x in db.all_features() if x.source != "gffutils_derived"]):
-                        a = dict(s_.attrs)
-                        t, g = a["transcript_id"][0], a["gene_id"][0]
-                        if (t, str(f.id), 1) not in rels or (g, str(f.id), 2) not in rels:
-                            ok = False
-                    if not ok:
-                        res.oracle_failures.append(("GTF-format input was not imported with GTF semantics (transcript_id / "
-                                                    "gene_id relations missing)", {"lines": lines}))
-                else:
-                    parent_links = set()
-                    for s_, f in zip(specs, list(db.all_features())):
-                        for p_ in dict(s_.attrs).get("Parent", []):
-                            parent_links.add((p_, str(f.id), 1))
-                    if derived or {x for x in rels if x[2] == 1} != parent_links:
-                        res.oracle_failures.append(("GFF3-format input was imported with GTF semantics (derived features, "
-                                                    "or relations not from Parent)", {"lines": lines}))
-                res.count("db_fmt_" + fmt)
-            except Exception as ex:
-                res.oracle_failures.append(("create_db raised %r on a consistent file" % ex, {"lines": lines}))
-            res.evaluations += 1
+            check_database(ctx, path, file_case("database", lines, specs, name), specs, res)
 
     # mixtures inside the window of a real file: trailing semicolon on some lines ----------------------------------
     for i in range(40 if not ctx.thorough else 400):
@@ -288,21 +466,17 @@ def run(ctx):
             pos = r.randrange(0, len(lines) + 1)
             lines.insert(pos, "chr1\tsrc\tregion\t1\t9\t.\t+\t.\t")
             votes.insert(pos, (False, 0))
-        path = write_file(ctx, "m%d.gff" % i, lines)
+        name = "m%d.gff" % i
+        path = write_file(ctx, name, lines)
         cl = r.choice([0, 1, nlines, 10])
         res.evaluations += 1
-        it = iterators.DataIterator(path, checklines=cl)
-        want_t = weighted_choice_oracle(votes[: cl + 1])
-        if it.dialect["trailing semicolon"] != want_t:
-            res.oracle_failures.append(("mixed window: trailing-semicolon choice is not the weighted majority",
-                                        {"lines": lines, "checklines": cl, "chosen": it.dialect["trailing semicolon"],
-                                         "expected": want_t}))
+        it = check_mixture(path, {"scenario": "mixture", "input": list(lines), "votes": [list(v) for v in votes],
+                                  "parallel": ["votes"], "checklines": cl, "file_name": name}, res)
         cmds.append("file %d none none %s" % (cl, pyside.enc_list(lines)))
         exp.append("ok " + pyside.enc_dialect(it.dialect)); tags.append(("DataIterator.dialect (mixture)", repr(lines)))
 
     # the format of the DATABASE decides the semantics of update(), whatever dialect the new data is written in --------
     import gen_db
-    import warnings
     for i in range(10 if not ctx.thorough else 100):
         gtf_db = [gen_db.gtf_line("chr1", "exon", 10, 50, "+", [("gene_id", ["G"]), ("transcript_id", ["T"])]),
                   gen_db.gtf_line("chr1", "exon", 80, 120, "+", [("gene_id", ["G"]), ("transcript_id", ["T"])])]
@@ -310,28 +484,11 @@ def run(ctx):
         new_gff_syntax = [gen_db.gff_line("chr1", "exon", 200 + 100 * j, 250 + 100 * j, "+",
                                           [("gene_id", ["G"]), ("transcript_id", ["T%d" % r.randrange(2)]), ("Parent", ["P"])])
                           for j in range(n)]
-        p1 = write_file(ctx, "u1.gtf", gtf_db)
-        p2 = write_file(ctx, "u2.gff3", new_gff_syntax)
         cfg = dbside.Cfg()
-        db, rep = dbside.py_create(p1, cfg)
-        res.evaluations += 1
-        if db is None:
+        db, rep, updated = check_update_gtf_db(ctx, {"scenario": "update_gtf_db", "base": gtf_db,
+                                                     "input": new_gff_syntax}, res)
+        if not updated:
             continue
-        before = len(list(db.all_features()))
-        try:
-            with warnings.catch_warnings():
-                warnings.simplefilter("ignore")
-                db.update(p2, make_backup=False, merge_strategy="create_unique")
-        except Exception as ex:
-            res.oracle_failures.append(("update of a GTF database with GFF3-syntax lines raised %r" % ex, {"db": gtf_db, "update": new_gff_syntax}))
-            continue
-        rels = set(dbside.rels_of(db))
-        bad = [l for l in new_gff_syntax if not any(c.startswith("exon_") and p == l.split("transcript_id=")[1].split(";")[0]
-                                                    and lv == 1 for p, c, lv in rels)]
-        if any(p == "P" for p, c, lv in rels) or bad:
-            res.oracle_failures.append(("update() of a GTF-format database did not apply GTF semantics to the new lines "
-                                        "(relations must come from transcript_id/gene_id, not from Parent)",
-                                        {"db": gtf_db, "update": new_gff_syntax, "relations": sorted(rels)}))
         cmds.append(dbside.cmd_create(gtf_db, cfg)); exp.append(rep); tags.append(("create_db", repr(gtf_db)))
         ucfg = dbside.Cfg(strategy="create_unique")
         cmds.append(dbside.cmd_update(new_gff_syntax, ucfg)); exp.append("ok"); tags.append(("update routing", repr(new_gff_syntax)))
@@ -340,17 +497,9 @@ def run(ctx):
         gff_db = [gen_db.gff_line("chr1", "gene", 1, 500, "+", [("ID", ["g"])])]
         new_gtf_syntax = [gen_db.gtf_line("chr1", "exon", 10 + 100 * j, 50 + 100 * j, "+", [("gene_id", ["G"]), ("transcript_id", ["T"])])
                           for j in range(n)]
-        p3 = write_file(ctx, "u3.gff3", gff_db)
-        p4 = write_file(ctx, "u4.gtf", new_gtf_syntax)
-        db, rep = dbside.py_create(p3, cfg)
+        db, rep = check_update_gff_db(ctx, {"scenario": "update_gff3_db", "base": gff_db, "input": new_gtf_syntax}, res)
         if db is None:
             continue
-        with warnings.catch_warnings():
-            warnings.simplefilter("ignore")
-            db.update(p4, make_backup=False, merge_strategy="create_unique")
-        if dbside.rels_of(db) or any(f.source == "gffutils_derived" for f in db.all_features()):
-            res.oracle_failures.append(("update() of a GFF3-format database applied GTF semantics to GTF-looking lines",
-                                        {"db": gff_db, "update": new_gtf_syntax, "relations": sorted(dbside.rels_of(db))}))
         cmds.append(dbside.cmd_create(gff_db, cfg)); exp.append(rep); tags.append(("create_db", repr(gff_db)))
         cmds.append(dbside.cmd_update(new_gtf_syntax, ucfg)); exp.append("ok"); tags.append(("update routing", repr(new_gtf_syntax)))
         cmds.append("dump"); exp.append(dbside.dump(db)); tags.append(("tables after update", repr((gff_db, new_gtf_syntax))))
@@ -372,10 +521,9 @@ def run(ctx):
                 res.corr_disagreements.append((comp, inp[:600], m[:600], e[:600]))
     res.assumptions = ["files are written with every line showing the dialect (>= 2 attribute parts), as the property's "
                        "quantifier states; the window is the first checklines+1 feature lines"]
+    common.shrink_first_failure(res, lambda case: judge(ctx, case))
     return res
 
 
 def replay(ctx, payload):
-    res = common.Result("C09")
-    print("replay payload:", payload.get("what"), payload.get("input"))
-    return res
+    return common.replay_failure("C09", payload, lambda case: judge(ctx, case))
